@@ -1015,6 +1015,48 @@ theorem ni_program_cmp (hs : SafeConsts P) {env env' : Env K} (h : EnvLow env en
   · exact key _ _ (fun _ _ _ _ ha hb => ni_elem_ord _ ha hb)
   · exact key _ _ (fun _ _ _ _ ha hb => ni_elem_ord _ ha hb)
 
+/-! ### ni_stmts: statement sequences (in-place operators = pure operator + rebinding) -/
+
+theorem F2_set {α : Type} {R : α → α → Prop} {l l' : List α} (h : F2 R l l') (i : Nat) {x x' : α} (hx : R x x') :
+    F2 R (l.set i x) (l'.set i x') := by
+  induction h generalizing i with
+  | nil => exact .nil
+  | cons hr _ ih =>
+    cases i with
+    | zero => exact .cons hx (by assumption)
+    | succ n => exact .cons hr (ih n)
+
+/-- **ni_stmts**: for every sequence of statements (queries and rebinding assignments, any length)
+    over low-equivalent environments, every statement shows the same observation in both runs and the
+    final environments are low-equivalent again - induction over the statement list -/
+theorem ni_stmts (hs : SafeConsts P) (stmts : List Stmt) : ∀ {env env' : Env K}, EnvLow env env' →
+    (runStmts P env stmts).1.map obsRes = (runStmts P env' stmts).1.map obsRes ∧
+    EnvLow (runStmts P env stmts).2 (runStmts P env' stmts).2 := by
+  induction stmts with
+  | nil => intro env env' h; exact ⟨rfl, h⟩
+  | cons st rest ih =>
+    intro env env' h
+    cases st with
+    | query e =>
+      have he := ni_program P hs h e
+      have := ih h
+      simp only [runStmts, List.map_cons, he, this.1]
+      exact ⟨trivial, this.2⟩
+    | assign i e =>
+      have hl := ni_program_low P hs h e
+      have he := obsRes_congr hl
+      have henv : EnvLow
+          (match eval P env e with | .ok x => { env with objs := env.objs.set i x } | .error _ => env)
+          (match eval P env' e with | .ok x => { env' with objs := env'.objs.set i x } | .error _ => env') := by
+        cases h1 : eval P env e <;> cases h2 : eval P env' e <;> rw [h1, h2] at hl
+        · exact h
+        · exact False.elim hl
+        · exact False.elim hl
+        · exact ⟨F2_set h.1 i hl, h.2.1, h.2.2⟩
+      have := ih henv
+      simp only [runStmts, List.map_cons, he]
+      exact ⟨congrArg _ this.1, this.2⟩
+
 /-! ### non-vacuity -/
 
 /-- a concrete instance of the primitives over the integers (sqrt etc. are irrelevant placeholders) -/
